@@ -1,8 +1,12 @@
 package checks
 
 import (
+	"encoding/json"
 	"fmt"
 	mrand "math/rand/v2"
+
+	"github.com/gmrtd/gmrtd/document"
+	"github.com/gmrtd/gmrtd/mobile"
 
 	"verifharness/chipsim"
 	"verifharness/ecref"
@@ -80,6 +84,9 @@ func c08Run(k *fw.K, pp persoPlan, seed uint64) {
 	}
 	if o.Access == perso.PACECAM {
 		names = append(names, "CardSecurity")
+	}
+	if o.EFDIR {
+		names = append(names, "DIR")
 	}
 	for _, n := range supportedDGs {
 		if _, ok := p.DGFiles[n]; !ok {
@@ -168,6 +175,79 @@ func c08Run(k *fw.K, pp persoPlan, seed uint64) {
 	k.Sample("read-"+acc, map[string]any{"plan": pp.String(), "exchanges": len(card.Events), "files": names})
 }
 
+// the same read through the mobile bindings (built-in trust store: the harness issuer is
+// not in it, so the expected verdict is "not trusted"); files come back through the CBOR export
+func c08Mobile(k *fw.K, pp persoPlan, seed uint64) {
+	r := k.RNG
+	p := perso.Build(r, pp.o)
+	card := p.NewCard(seed)
+	card.Extended = pp.extended
+	card.MaxReturn = pp.chipCap
+	tr := &funcTransceiver{f: card.Transceive}
+	mr := mobile.NewReader(nil, tr)
+	if err := mr.SetApduMaxLe(pp.maxLe); err != nil {
+		k.Violation("mobile:setapdumaxle-rejected", fmt.Sprintf("SetApduMaxLe(%d): %v", pp.maxLe, err), nil)
+		return
+	}
+	if pp.skipImg {
+		mr.SkipImages()
+	}
+	var pw *mobile.MrtdPassword
+	var err error
+	if p.Opts.CAN {
+		pw, err = mobile.NewPasswordCan(p.CANStr)
+	} else {
+		pw, err = mobile.NewPasswordMrz(p.Zone)
+	}
+	if err != nil {
+		fw.LibFail("mobile-password-rejected", "mobile password constructor rejects valid input: %v", err)
+	}
+	k.Nontrivial("mobile|" + pp.String())
+	k.Count("mobile_reads")
+	doc, err := mr.ReadDocument(pw, []byte{0x3B}, nil)
+	det := map[string]any{"plan": pp.String(), "err": fmt.Sprint(err), "exchanges": len(card.Events)}
+	if err != nil || doc == nil {
+		k.Violation("mobile:read:error:"+pp.o.Access.String(), fmt.Sprintf("mobile.Reader.ReadDocument failed on a conforming chip: %v", err), det)
+		return
+	}
+	blob, err := doc.DocumentExCbor()
+	if err != nil {
+		k.Violation("mobile:export-failed", fmt.Sprintf("DocumentExCbor: %v", err), det)
+		return
+	}
+	d, _, err := document.UnmarshalVerifiableDoc(blob)
+	if err != nil {
+		k.Violation("mobile:export-not-importable", fmt.Sprintf("UnmarshalVerifiableDoc of the mobile export: %v", err), det)
+		return
+	}
+	names := []string{"SOD", "COM", "DG1"}
+	for _, n := range supportedDGs {
+		if _, ok := p.DGFiles[n]; ok && !(pp.skipImg && (n == 2 || n == 7)) {
+			names = append(names, fmt.Sprintf("DG%d", n))
+		}
+	}
+	for _, name := range names {
+		if !bytesEq(docFile(d, name), chipFile(p, name)) {
+			k.Violation("mobile:read:file-differs:"+name, name+" from the mobile read differs from the chip's file", det)
+			return
+		}
+	}
+	sj, err := doc.SummaryJson()
+	var sum struct {
+		DataTrusted      bool `json:"dataTrusted"`
+		ChipAuthenticity int  `json:"chipAuthenticity"`
+	}
+	if err != nil || json.Unmarshal(sj, &sum) != nil {
+		k.Violation("mobile:summary-unreadable", "SummaryJson cannot be read", det)
+		return
+	}
+	if sum.DataTrusted {
+		k.Violation("mobile:trusted-with-foreign-issuer", "mobile read marks data trusted although the issuer is not in the built-in trust store", det)
+		return
+	}
+	k.Count("mobile_reads_ok")
+}
+
 func c08ErrClass(err error, card *chipsim.Card) string {
 	if err == nil {
 		return "nil-document"
@@ -201,6 +281,12 @@ func runC08(c *fw.Ctx) {
 	c.Cases(n, func(i int) string { return fmt.Sprintf("read|i=%d", i) }, func(i int, k *fw.K) {
 		pp := randPlan(k.RNG, c.Thorough() || i%10 == 0)
 		c08Run(k, pp, uint64(i)+1)
+	})
+	nm := c.Pick(24, 200)
+	c.Cases(nm, func(i int) string { return fmt.Sprintf("mobile|i=%d", i) }, func(i int, k *fw.K) {
+		pp := randPlan(k.RNG, false)
+		pp.shortRnd, pp.leCap = false, 0
+		c08Mobile(k, pp, uint64(i)+9000)
 	})
 	// tiny per-read sizes (1..8 bytes): legal settings that need small files to stay below
 	// the reader's chunk limit - a BAC-only chip with an EC-signed security object
